@@ -22,6 +22,7 @@ def rprims (c : Persist.FsmCls) (now : Persist.Time) :
   setActiveTimer := fun _ d => d
   timersEnabled := fun _ => true
   setTimersEnabled := fun _ d => d
+  setPersistent := fun _ d => d
   durIsNone := fun _ => false
   durEqInf := fun _ => false
   durationOf := fun _ _ => 0
@@ -56,6 +57,7 @@ theorem rprims_getActiveTimer (c : Persist.FsmCls) (now : Persist.Time) : (rprim
 theorem rprims_setActiveTimer (c : Persist.FsmCls) (now : Persist.Time) : (rprims c now).setActiveTimer = (fun _ d => d) := rfl
 theorem rprims_timersEnabled (c : Persist.FsmCls) (now : Persist.Time) : (rprims c now).timersEnabled = (fun _ => true) := rfl
 theorem rprims_setTimersEnabled (c : Persist.FsmCls) (now : Persist.Time) : (rprims c now).setTimersEnabled = (fun _ d => d) := rfl
+theorem rprims_setPersistent (c : Persist.FsmCls) (now : Persist.Time) : (rprims c now).setPersistent = (fun _ d => d) := rfl
 theorem rprims_durIsNone (c : Persist.FsmCls) (now : Persist.Time) : (rprims c now).durIsNone = (fun _ => false) := rfl
 theorem rprims_durEqInf (c : Persist.FsmCls) (now : Persist.Time) : (rprims c now).durEqInf = (fun _ => false) := rfl
 theorem rprims_durationOf (c : Persist.FsmCls) (now : Persist.Time) : (rprims c now).durationOf = (fun _ _ => 0) := rfl
@@ -86,7 +88,7 @@ theorem rprims_setOutput (c : Persist.FsmCls) (now : Persist.Time) : (rprims c n
 macro "rtsimp" "[" ts:Lean.Parser.Tactic.simpLemma,* "]" : tactic =>
   `(tactic| simp [Gen.TrM.seq, Gen.TrM.branch, Gen.TrM.call, Gen.TrM.assign, Gen.TrM.skip, Gen.TrM.matchOpt,
       Gen.TrM.upd, Gen.TrM.ret, Gen.TrM.raise, Gen.TrT.bindv, Gen.TrT.runProc, Gen.TrT.setTimer, Gen.TrT.setTimerBody,
-      rprims_exc, rprims_getState, rprims_setState, rprims_getActiveTimer, rprims_setActiveTimer, rprims_timersEnabled, rprims_setTimersEnabled, rprims_durIsNone, rprims_durEqInf, rprims_durationOf, rprims_timePeriod, rprims_cmpZero, rprims_callLater, rprims_cancelled, rprims_cancel, rprims_timerWhen, rprims_loopToUnix, rprims_event, rprims_superStop, rprims_superStart, rprims_getSdata, rprims_setSdata, rprims_istateLen2, rprims_istatePad, rprims_istateUnpack, rprims_checkState, rprims_remaining, rprims_timedEvent, rprims_calcOutput, rprims_isUndef, rprims_setOutput, cmpInt, $ts,*])
+      rprims_exc, rprims_getState, rprims_setState, rprims_getActiveTimer, rprims_setActiveTimer, rprims_timersEnabled, rprims_setTimersEnabled, rprims_setPersistent, rprims_durIsNone, rprims_durEqInf, rprims_durationOf, rprims_timePeriod, rprims_cmpZero, rprims_callLater, rprims_cancelled, rprims_cancel, rprims_timerWhen, rprims_loopToUnix, rprims_event, rprims_superStop, rprims_superStart, rprims_getSdata, rprims_setSdata, rprims_istateLen2, rprims_istatePad, rprims_istateUnpack, rprims_checkState, rprims_remaining, rprims_timedEvent, rprims_calcOutput, rprims_isUndef, rprims_setOutput, cmpInt, $ts,*])
 
 /-- `_restore_state` has restored the state iff it returned normally with the output set; when it returns
     without restoring (expired state) it must have left the block untouched; when it raises (the error is
